@@ -43,7 +43,8 @@ func AddStandardFilters(fd FilterDictionary) { //nolint: gocyclo
 	// array filters
 	fd.AddFilter("compact", func(a []any) (result []any) {
 		for _, item := range a {
-			if item != nil {
+			// a drop that yields nil is nil
+			if values.ToLiquid(item) != nil {
 				result = append(result, item)
 			}
 		}
